@@ -33,8 +33,8 @@ Section Total.
     destruct (_ <? minLen); [exact I|].
     destruct (negb _ || negb _ || negb _); [apply IH|].
     destruct rest as [|n0 [|n1 rest2]]; try exact I.
-    destruct (read_pairs _ _ _ _); [|exact I].
-    specialize (IH b (pos + N.to_nat (h2 * 256 + h3))%nat).
+    cbv zeta. destruct (read_pairs _ _ _ _); [|exact I].
+    match goal with |- context [kern_tables _ _ _ _ _ n b ?p] => specialize (IH b p) end.
     destruct (kern_tables _ _ _ _ _ n b _); try exact I; contradiction.
   Qed.
 
@@ -46,11 +46,12 @@ Section Total.
     destruct (negb _); [exact I|]. apply kern_tables_no_crash.
   Qed.
 
-  (* every record that is read lies inside the data: the number of records
-     is bounded by (number of subtables) * |b| / 6 *)
+  (* the records that are read lie inside the data and, since the next
+     subtable starts after the records of the previous one, they do not
+     overlap: six bytes of input per record *)
   Lemma kern_tables_bound n : forall b pos es,
     kern_tables minLen maskSel wanted maskMin maskOvr n b pos = Ok es ->
-    (6 * length es <= n * length b)%nat.
+    (6 * length es <= length b - pos)%nat.
   Proof.
     induction n as [|n IH]; intros b pos es; cbn [kern_tables]; intros H.
     - inversion H. cbn. lia.
@@ -59,14 +60,19 @@ Section Total.
       destruct (negb _ || negb _ || negb _).
       + apply IH in H. lia.
       + destruct rest as [|n0 [|n1 rest2]]; try discriminate.
+        cbv zeta in H.
         destruct (read_pairs _ _ _ _) as [es1|] eqn:Erp; [|discriminate].
-        destruct (kern_tables _ _ _ _ _ n b _) as [more| | |] eqn:Ek; try discriminate.
+        match type of H with context [kern_tables _ _ _ _ _ n b ?p] =>
+          destruct (kern_tables minLen maskSel wanted maskMin maskOvr n b p) as [more| | |] eqn:Ek;
+          try discriminate; set (p' := p) in * end.
         inversion H; subst. apply IH in Ek. apply read_pairs_length in Erp.
         destruct Erp as [Hl Hb]. rewrite app_length.
-        assert (length (skipn 6 rest2) <= length b)%nat.
-        { rewrite skipn_length.
-          assert (length (skipn pos b) <= length b)%nat by (rewrite skipn_length; lia).
-          rewrite Esk in H0. cbn [length] in H0. lia. }
+        assert (length (skipn pos b) = length b - pos)%nat as Hsk by apply skipn_length.
+        rewrite Esk in Hsk. cbn [length] in Hsk.
+        assert (length (skipn 6 rest2) = length rest2 - 6)%nat as Hs6 by apply skipn_length.
+        assert (pos + 14 + 6 * N.to_nat (n0 * 256 + n1) <= p')%nat as Hp'.
+        { subst p'. destruct (Nat.ltb_spec (pos + N.to_nat (h2 * 256 + h3))
+                                           (pos + 14 + 6 * N.to_nat (n0 * 256 + n1))); lia. }
         lia.
   Qed.
 End Total.
